@@ -160,9 +160,135 @@ def _run_xproc(sc, tape):
             'sample': {'backend': name, 'mode': 'across-interpreters', 'phases': len(sc['phases'])}}
 
 
+def _gen_conc(t):
+    """the map behaviour with several writers at once: 2-3 processes (or threads sharing one cache object), each working on
+    addresses of its own that collide with the others' in the backend's internal addressing (same bundle, same directory,
+    same single colour)"""
+    b = copy.deepcopy(t.weighted([(x, w_) for x, w_ in BACKENDS if x['type'] in ('file', 'compact')]))
+    start = t.choice(len(M.CATALOGUE))
+    pool = []
+    for i in range(t.randint(4, 9)):
+        c = M.CATALOGUE[(start + i) % len(M.CATALOGUE)] if t.chance(0.8) else t.pick(M.CATALOGUE)
+        if c not in pool:
+            pool.append(c)
+    nproc = t.randint(2, 3)
+    procs = []
+    for p in range(nproc):
+        mine = [c for i, c in enumerate(pool) if i % nproc == p]
+        ops = []
+        for _ in range(t.randint(1, 4)):
+            if not mine:
+                break
+            k = t.weighted([('store', 6), ('store_many', 2), ('remove', 1), ('load', 2)])
+            if k == 'store':
+                ops.append(['store', t.pick(mine), None, M.gen_payload(t, b.get('link'))])
+            elif k == 'store_many':
+                ops.append(['store_many', None, [[c, M.gen_payload(t, b.get('link'))] for c in M._distinct(t, mine, t.randint(1, 3))]])
+            elif k == 'remove':
+                ops.append(['remove', t.pick(mine), None])
+            else:
+                ops.append(['load', t.pick(mine), None])
+        procs.append(ops)
+    return {'kind': 'conc', 'backend': b, 'pool': pool, 'procs': procs, 'threads': bool(t.chance(0.3)),
+            'policy': t.pick([['random'], ['sticky', 0.3], ['sticky', 0.6]]), 'bufsize': t.pick([4096, 8192])}
+
+
+def _run_conc(sc, tape):
+    from simkit.sched import SimAbort, SimCrash
+    b = sc['backend']
+    name = C.backend_name(b)
+    w = World(tape, policy=tuple(sc['policy']), step_cap=300000, eager_time=True)
+    sched = w.sched
+    viol = []
+    finals = []
+    for ops in sc['procs']:
+        last = {}
+        for op in ops:
+            if op[0] == 'store':
+                last[tuple(op[1])] = C.payload(op[3])
+            elif op[0] == 'store_many':
+                for c, p in op[2]:
+                    last[tuple(c)] = C.payload(p)
+            elif op[0] == 'remove':
+                last[tuple(op[1])] = None
+        finals.append(last)
+    v = None
+    with w:
+        w.fs.buffer_size = sc['bufsize']
+        shared_cache = C.make_cache(b) if sc['threads'] else None
+
+        def proc_fn(pi, ops):
+            def fn():
+                cache = shared_cache if shared_cache is not None else C.make_cache(b)
+                mine = {}
+                for i, op in enumerate(ops):
+                    what = 'writer %d op#%d %s' % (pi, i, M._opstr(op))
+                    try:
+                        if op[0] == 'store':
+                            cache.store_tile(C.make_tile(op[1], C.payload(op[3])))
+                            mine[tuple(op[1])] = C.payload(op[3])
+                        elif op[0] == 'store_many':
+                            cache.store_tiles([C.make_tile(c, C.payload(p)) for c, p in op[2]])
+                            for c, p in op[2]:
+                                mine[tuple(c)] = C.payload(p)
+                        elif op[0] == 'remove':
+                            cache.remove_tile(C.make_tile(op[1]))
+                            mine[tuple(op[1])] = None
+                        else:
+                            t_ = C.make_tile(op[1])
+                            cache.load_tile(t_)
+                            sched.check_alive()
+                            got = C.read_tile_bytes(t_) if t_.source is not None else None
+                            if tuple(op[1]) in mine and got != mine[tuple(op[1])]:
+                                viol.append(('concurrent-read', '%s: returns %s, this writer\'s latest store there was %s (nobody else '
+                                             'touches that address)' % (what, C.describe(got), C.describe(mine[tuple(op[1])]))))
+                                sched.abort('violation')
+                    except (SimAbort, SimCrash):
+                        raise
+                    except Exception as ex:
+                        import traceback
+                        viol.append(('concurrent-raises:' + type(ex).__name__, '%s raised %r\n%s' % (
+                            what, ex, ''.join(traceback.format_tb(ex.__traceback__)[-3:]))))
+                        sched.abort('violation')
+            return fn
+        server = w.new_proc('server') if sc['threads'] else None
+        for pi, ops in enumerate(sc['procs']):
+            sched.spawn(proc_fn(pi, ops), 'w%d' % pi, server or w.new_proc('p%d' % pi))
+        outcome = w.run_tasks()
+        for t_ in sched.tasks:
+            if t_.exc is not None and not isinstance(t_.exc, (SimAbort, SimCrash)):
+                raise t_.exc
+        if viol:
+            v = {'sig': 'C05:%s:%s' % (viol[0][0], name), 'msg': viol[0][1]}
+        elif outcome != 'done':
+            v = {'sig': 'C05:concurrent-hang:%s' % name, 'msg': 'writers did not terminate: %s %r' % (outcome, sched.stuck_info)}
+        else:
+            w.fs.sched = None
+            fresh = C.make_cache(b)
+            for pi, last in enumerate(finals):
+                for c, exp in sorted(last.items()):
+                    t_ = C.make_tile(c)
+                    fresh.load_tile(t_)
+                    got = C.read_tile_bytes(t_) if t_.source is not None else None
+                    if got != exp:
+                        kind = 'lost' if got is None else ('phantom' if exp is None else 'wrong-bytes')
+                        v = {'sig': 'C05:concurrent-%s:%s' % (kind, name),
+                             'msg': 'at quiescence address %s returns %s; its only writer (writer %d) last stored %s there; writers: %s' % (
+                                 c, C.describe(got), pi, C.describe(exp), [[M._opstr(o) for o in ops] for ops in sc['procs']])}
+                        break
+                if v:
+                    break
+    return {'violation': v, 'digest': C.digest_of('conc', b, sc['procs'], sched.log), 'nontrivial': len(sc['procs']) > 1,
+            'steps': sched.steps, 'sim_time': 0.0, 'faults': {}, 'probes': {'concurrent_writers': 1, 'backend_' + name: 1},
+            'sample': {'backend': name, 'mode': 'concurrent', 'threads': sc['threads'],
+                       'writers': [[M._opstr(o) for o in ops] for ops in sc['procs']]}}
+
+
 def gen(t, tier):
     if t.chance(0.005):
         return _gen_xproc(t)
+    if t.chance(0.12):
+        return _gen_conc(t)
     b = copy.deepcopy(t.weighted(BACKENDS))
     npool = t.randint(3, 12)
     # bias the pool to neighbouring catalogue entries (they are the ones that collide)
@@ -190,6 +316,17 @@ def gen(t, tier):
 
 
 def shrink(sc):
+    if sc.get('kind') == 'conc':
+        for p in range(len(sc['procs'])):
+            for i in range(len(sc['procs'][p])):
+                c = copy.deepcopy(sc)
+                del c['procs'][p][i]
+                yield c
+        if sc['policy'] != ['sticky', 0.3]:
+            c = copy.deepcopy(sc)
+            c['policy'] = ['sticky', 0.3]
+            yield c
+        return
     if sc.get('kind') == 'xproc':
         for i in range(len(sc['phases'])):
             for j in range(len(sc['phases'][i]['ops'])):
@@ -234,6 +371,8 @@ def _real_dir():
 def run(sc, tape):
     if sc.get('kind') == 'xproc':
         return _run_xproc(sc, tape)
+    if sc.get('kind') == 'conc':
+        return _run_conc(sc, tape)
     b = sc['backend']
     name = C.backend_name(b)
     onsim = b['type'] in ('file', 'compact')
